@@ -6,7 +6,12 @@ export VERIF_EVIDENCE_DIR=/verif/.work/evidence-scratch
 gen() { # name commit prop rule
   name=$1; commit=$2; prop=$3; rule=$4
   if [ -n "$(git -C /repo status --porcelain --untracked-files=no)" ]; then echo "/repo dirty"; exit 2; fi
-  git -C /repo revert --no-commit $commit >/dev/null 2>&1 || { echo "$name: cannot revert $commit"; git -C /repo reset -q --hard HEAD; return; }
+  if ! git -C /repo revert --no-commit $commit >/dev/null 2>&1; then
+    # later hook commits touch the same lines: use the hand-resolved revert kept beside this script
+    git -C /repo reset -q --hard HEAD
+    short=${name%%-*}
+    if [ -f /verif/tools/revert_$short.diff ] && git -C /repo apply /verif/tools/revert_$short.diff; then :; else echo "$name: cannot revert $commit"; git -C /repo reset -q --hard HEAD; return; fi
+  fi
   out=$(VERIF_SECONDS=${SECS:-15} ./check $prop quick 2>&1)
   git -C /repo reset -q --hard HEAD
   f=$(echo "$out" | grep -B0 -A1 "^VIOLATION" | grep -A1 "replay=" | awk '/^VIOLATION/{split($3,a,"="); p=a[2]} /rule='$rule'/{print p; exit}')
@@ -20,3 +25,4 @@ gen F4-trimto-frees-first-chunk 1e3d1cc C12 hang
 gen F5-reopen-at-page-frontier cc01d31 C16 panic
 gen F6-stale-nodes-after-remap 4274303 C10 panic
 gen F7-internal-cost-overflow 902a609 C03 too-big-admitted
+gen F8-update-cost-wraps-counter 7a28955 C03 over-capacity
